@@ -103,7 +103,7 @@ Section Go.
 
   Definition enc_obs (o : obs f64 frame32) : list Z :=
     match o with
-    | OPos p _ _ _ => [bits_of_f64 p]
+    | OPos p st _ _ _ => [bits_of_f64 p; st]
     | OOut frames st fin => R4.enc_frames frames ++ [st; if fin then 1 else 0]
     end.
   Definition enc_run (r : outcome (list (obs f64 frame32))) : list Z :=
